@@ -43,7 +43,6 @@ CORE = ['true', 'category == "food"', 'months >= 3', 'total > 100', 'cv < 0.3', 
 GLOBALS = [[], [('g', 'months >= 2')], [('g', 'nosuch + 1')], [('g', 'total / months'), ('h', 'g > 50')],
            [('g', 'months * 2 >= period("month")'), ('h', 'total / period("year") > 50')],
            # globals that read the merchant's payments ONLY through by(...) - no primitive is named - and one built from another
-           [('g', 'max(sum(by("month"))) > 100'), ('h', 'count(by("year")) == 2')],
-           [('peak', 'max(sum(by("month")))'), ('g', 'peak > 100'), ('h', 'g and count(by("day")) >= 3')]]
+           [('peak', 'max(sum(by("month")))'), ('g', 'peak > 100'), ('h', 'count(by("year")) == 2')]]
 LOCALS = [[], [('v', 'total / months')], [('v', 'avg(payments)'), ('w', 'v * 2')], [('g', 'false')],
           [('v', 'period("month") * 2')], [('v', 'total / period("year")'), ('g', 'months * 4 >= period("month")')]]
